@@ -94,6 +94,10 @@ pub fn into_bytes_incircuit(
         )),
 
         Native(x) => {
+            // The byte decomposition panics on a known value (a constant, or the witness
+            // at proving time) that does not fit in n bytes. We report the failed
+            // range-check as an error value instead, like off-circuit.
+            x.value().map_with_result(|v| IrValue::Native(*v).into_bytes(n))?;
             let bytes = std_lib.assigned_to_le_bytes(layouter, x, Some(n))?;
             Ok(bytes.to_vec().into())
         }
